@@ -105,7 +105,7 @@ Lex(s) == LexRun(s, 1, St0, 1, <<>>)
 RECURSIVE Bytes(_, _, _)
 Bytes(s, a, b) == IF a >= b THEN 0 ELSE ByteLen(s[a]) + Bytes(s, a + 1, b)
 \* token list as the implementation reports it: kind and length in bytes
-LexBytes(s) == LET ts == Lex(s) IN [i \in 1..Len(ts) |-> [k |-> ts[i].k, len |-> Bytes(s, ts[i].a, ts[i].b)]]
+LexBytes(s) == LET ts == Lex(s) IN TLCEval([i \in 1..Len(ts) |-> [k |-> ts[i].k, len |-> Bytes(s, ts[i].a, ts[i].b)]])
 
 \* C12 (lexer half), stated on any token list `ts` = <<[k, len]>> claimed for the string s:
 \* every token non-empty, lengths add up to the whole input, every boundary a character boundary
